@@ -14,11 +14,12 @@ from typing import Optional
 
 from vf.engine import Assume, Ctx, Failure
 from vf.harness.common import bounds_of, method_classes, self_of
-from vf.specs import FLOAT, INT, STR, F, Program, Sp, build, lst, mp, obj, opt, tup, union
+from vf.specs import FLOAT, INT, STR, F, Program, Sp, build, lit, lst, mp, obj, opt, tup, union
 from vf.sym import Gen, Val, same
 
 COMMON = '''
-from apischema.conversions import Conversion, LazyConversion, catch_value_error
+from apischema.conversions import Conversion, LazyConversion, as_names, as_str, catch_value_error
+from apischema.objects import object_deserialization, object_serialization
 from apischema import deserializer, serializer
 from collections import deque
 
@@ -114,6 +115,58 @@ SCENARIOS = {
         T="Idt", S_spec=obj("IdtPlain", F("x", INT)), S="IdtPlain", f="(lambda p: Idt(p.x))",
         U_spec=obj("IdtPlain", F("x", INT)), U="IdtPlain", g="(lambda i: IdtPlain(i.x))", dynamic=("identity", "identity"), named_S=True,
     ),
+    # ---- conversion helpers of the public API (round 4): each is "a conversion" for the statement
+    "as_str": dict(
+        src="@as_str\nclass Ver(Box):\n    def __init__(self, s):\n        if s[:1] == 'x':\n            raise ValueError('bad version')\n"
+        "        self.v = s\n    def __str__(self):\n        return self.v\n",
+        T="Ver", S_spec=STR, S="str", f="Ver", value_error=True, U_spec=STR, U="str", g="str",
+    ),
+    "as_names": dict(
+        src="class Col(Enum):\n    RED = 1\n    GREEN = 2\nas_names(Col)\n",
+        T="Col", S_spec=lit("RED", "GREEN"), S="Literal['RED', 'GREEN']", f="(lambda n: Col[n])",
+        U_spec=lit("RED", "GREEN"), U="Literal['RED', 'GREEN']", g="(lambda c: c.name)", plain_mixin=True,
+    ),
+    "object_deserialization": dict(
+        src="class Pt2(Box): pass\ndef make_pt(x: int, y: int = 0) -> Pt2:\n    return Pt2((x, y))\n"
+        "deserializer(object_deserialization(make_pt))\n",
+        T="Pt2", S_spec=obj("PtIn", F("x", INT), F("y", INT, default=("v", "0"))), S="PtIn",
+        f="(lambda p: make_pt(p.x, p.y))", U_spec=INT, U="int", g="None", deser_only=True,
+    ),
+    "object_serialization": dict(
+        src="@dataclass\nclass Dat:\n    id: int\n    content: str\n    @property\n    def neg(self) -> int:\n        return -self.id\n"
+        "    def twice(self) -> int:\n        return self.id + self.id\n"
+        "dat_view = object_serialization(Dat, ['id', Dat.neg, (Dat.twice, alias('dbl'))], type_name('DatView'))\n",
+        T="Dat", S_spec=INT, S="int", f="(lambda u: Dat(u.id, 'c'))",
+        U_spec=obj("DatOut", F("id", INT), F("neg", INT), F("dbl", INT)), U="DatOut",
+        g="(lambda d: DatOut(d.id, -d.id, d.id + d.id))", dynamic=("None", "dat_view"), ser_only=True,
+    ),
+    "sub_conversion": dict(
+        src="T_ = TypeVar('T_')\nclass Q(Generic[T_]):\n    def __init__(self, items):\n        self.items = list(items)\n"
+        "    def __eq__(self, o):\n        return type(o) is Q and o.items == self.items\n    __hash__ = None\n"
+        "def q_from(items: List[T_]) -> Q[T_]:\n    return Q(items)\ndef q_to(q: Q[T_]) -> List[T_]:\n    return q.items\n"
+        "class Foo(Box): pass\ndef foo_from(i: int) -> Foo:\n    return Foo(i)\ndef foo_to(x: Foo) -> int:\n    return x.v\n",
+        T="Q[Foo]", S_spec=lst(INT), S="List[int]", f="(lambda xs: Q([Foo(x) for x in xs]))",
+        U_spec=lst(INT), U="List[int]", g="(lambda q: [x.v for x in q.items])",
+        dynamic=("Conversion(q_from, sub_conversion=foo_from)", "Conversion(q_to, sub_conversion=foo_to)"),
+    ),
+    "lazy_registered": dict(
+        src="class Lz(Box): pass\ndef lz_from(i: int) -> Lz:\n    return Lz(i)\ndef lz_to(x: Lz) -> int:\n    return x.v\n"
+        "deserializer(lazy=lambda: Conversion(lz_from), target=Lz)\nserializer(lazy=lambda: Conversion(lz_to), source=Lz)\n",
+        T="Lz", S_spec=INT, S="int", f="lz_from", U_spec=INT, U="int", g="lz_to",
+    ),
+    "generic_nested": dict(
+        src="T_ = TypeVar('T_')\nclass W2(Generic[T_]):\n    def __init__(self, d):\n        self.d = dict(d)\n"
+        "    def __eq__(self, o):\n        return type(o) is W2 and o.d == self.d\n    __hash__ = None\n"
+        "@deserializer\ndef w2_from(d: Dict[str, List[T_]]) -> W2[T_]:\n    return W2(d)\n"
+        "@serializer\ndef w2_to(w: W2[T_]) -> Dict[str, List[T_]]:\n    return w.d\n",
+        T="W2[int]", S_spec=mp(lst(INT)), S="Dict[str, List[int]]", f="w2_from",
+        U_spec=mp(lst(INT)), U="Dict[str, List[int]]", g="w2_to", only=("plain", "list", "opt"),
+    ),
+    "lazy_inherited": dict(
+        src="class LA(Box): pass\nclass LB(LA): pass\ndef la_to(x: LA) -> int:\n    return x.v\n"
+        "serializer(lazy=lambda: la_to, source=LA)\n@deserializer\ndef lb_from(i: int) -> LB:\n    return LB(i)\n",
+        T="LB", S_spec=INT, S="int", f="lb_from", U_spec=INT, U="int", g="la_to",
+    ),
 }
 WRAPPERS = ["plain", "list", "opt", "dict", "tuple", "union", "field", "deque"]
 
@@ -148,6 +201,20 @@ def lift(w: str, f):
     raise ValueError(w)
 
 
+def plain_mixin(x):
+    import enum
+
+    if isinstance(x, enum.Enum) and isinstance(x, str):
+        return x.value
+    if isinstance(x, list):
+        return [plain_mixin(y) for y in x]
+    if isinstance(x, tuple):
+        return tuple(plain_mixin(y) for y in x)
+    if isinstance(x, dict):
+        return {k: plain_mixin(v) for k, v in x.items()}
+    return x
+
+
 def jobs(prop, tier, seed):
     out = []
     q = tier == "quick"
@@ -161,9 +228,9 @@ def jobs(prop, tier, seed):
                 continue  # `identity` matches the outermost type only
             if sc.get("only") and w not in sc["only"]:
                 continue
-            if w == "union" and name in ("multiple", "generic", "generic_inherited", "dynamic"):
+            if w == "union" and name in ("multiple", "generic", "generic_inherited", "dynamic", "sub_conversion"):
                 continue  # the source is itself a list / union (ambiguous wrapper), or a float (by-type dispatch known finding)
-            for direction in ("deser",) if sc.get("deser_only") else ("deser", "ser"):
+            for direction in ("deser",) if sc.get("deser_only") else ("ser",) if sc.get("ser_only") else ("deser", "ser"):
                 b = dict(depth=2, width=2, strlen=2, budget=1 if q else 2)
                 out.append(dict(harness="C12", variant=direction, pid=f"{name}/{w}", scenario=name, wrapper=w, opts={}, bounds=b, budget_s=30 if q else 120))
         out.append(dict(harness="C12", variant="schema", pid=f"{name}/schema", scenario=name, wrapper="plain", opts={}, bounds={}, budget_s=20))
@@ -181,7 +248,7 @@ class Inst:
         self.sc = sc
         w = job["wrapper"]
         self.w = w
-        root_spec = sc["S_spec"] if job["variant"] != "ser" else sc["U_spec"]
+        root_spec = sc["U_spec"] if job["variant"] == "ser" or sc.get("ser_only") else sc["S_spec"]
         extra = COMMON + sc["src"]
         holder = ""
         if w == "field":
@@ -201,8 +268,8 @@ class Inst:
         self.f = eval(sc["f"], ns)
         self.g = eval(sc["g"], ns)
         dyn = sc.get("dynamic")
-        dkw = {"conversion": eval(dyn[0], ns)} if dyn else {}
-        skw = {"conversion": eval(dyn[1], ns)} if dyn else {}
+        dkw = {"conversion": eval(dyn[0], ns)} if dyn and dyn[0] != "None" else {}
+        skw = {"conversion": eval(dyn[1], ns)} if dyn and dyn[1] != "None" else {}
         if w == "field":
             T, S, U = ns["HolderT"], ns["HolderS"], ns["HolderU"]
         else:
@@ -302,6 +369,8 @@ class Inst:
         ctx.witness = u
         ctx.run_phase()
         a = self.mT(v)
+        if self.sc.get("plain_mixin"):
+            a = plain_mixin(a)  # a str-mixin Enum member is already JSON data (documented): its value
         # g(v): apply the serializer function itself, elementwise, then the real method of U
         if self.w == "field":
             gu = self.ns["HolderU"](self.g(v.x), v.y)
@@ -338,14 +407,17 @@ class Inst:
         dyn = self.sc.get("dynamic")
         if self.sc.get("field_conv") or self.job["scenario"] in ("multiple", "identity", "identity_tuple"):
             return None  # field conversions have no type-level schema; several sources: anyOf vs type list
-        dkw = {"conversion": eval(dyn[0], self.ns)} if dyn else {}
-        skw = {"conversion": eval(dyn[1], self.ns)} if dyn else {}
+        dkw = {"conversion": eval(dyn[0], self.ns)} if dyn and dyn[0] != "None" else {}
+        skw = {"conversion": eval(dyn[1], self.ns)} if dyn and dyn[1] != "None" else {}
         for w in ("plain", "list", "opt", "deque"):
             T, S, U = (eval(wrap_type(w, self.sc[k]), self.ns) for k in ("T", "S", "U"))
-            a, b = deserialization_schema(T, **dkw), deserialization_schema(S)
-            if a != b:
-                return Failure("deserialization-schema-differs-from-source", witness=None, extra={"wrapper": w, "T": a, "S": b})
-            a, b = serialization_schema(T, **skw), serialization_schema(U)
+            if not self.sc.get("ser_only"):
+                a, b = unname(deserialization_schema(T, **dkw)), unname(deserialization_schema(S))
+                if a != b:
+                    return Failure("deserialization-schema-differs-from-source", witness=None, extra={"wrapper": w, "T": a, "S": b})
+            if self.sc.get("deser_only"):
+                continue
+            a, b = unname(serialization_schema(T, **skw)), unname(serialization_schema(U))
             if a != b:
                 return Failure("serialization-schema-differs-from-target", witness=None, extra={"wrapper": w, "T": a, "U": b})
         return None
@@ -478,6 +550,24 @@ class Recursive:
         if not same(out, self.image(v)):
             return Failure("recursive-field-serialization-not-converted", witness=d, extra={"out": out, "expected": self.image(v)})
         return None
+
+
+def unname(schema):
+    """schemas are compared up to the names of the definitions (the generated input / output
+    class of object_deserialization / object_serialization has its own type_name): every
+    `$ref` is replaced by the definition it points to (non-recursive programs only)"""
+    defs = schema.get("$defs", {})
+
+    def go(x, depth=0):
+        if isinstance(x, dict):
+            if "$ref" in x and depth < 6:
+                return go(defs[x["$ref"].rsplit("/", 1)[1]], depth + 1)
+            return {k: go(v, depth) for k, v in x.items() if k != "$defs"}
+        if isinstance(x, list):
+            return [go(v, depth) for v in x]
+        return x
+
+    return go(dict(schema))
 
 
 def make(job):
